@@ -31,7 +31,9 @@ class Include(DirectivePlugin):
         dest = os.path.join(os.path.dirname(source_file), relpath)
         dest = os.path.normpath(dest)
 
-        if dest == source_file:
+        # the files being included on the way from the document to this directive
+        chain = state.env.get("__include_chain__") or (source_file,)
+        if dest in chain:
             return {
                 "type": "block_error",
                 "raw": "Could not include self: " + escape_text(relpath),
@@ -57,6 +59,7 @@ class Include(DirectivePlugin):
         if ext in {".md", ".markdown", ".mkd"}:
             new_state = block.state_cls()
             new_state.env["__file__"] = dest
+            new_state.env["__include_chain__"] = chain + (dest,)
             new_state.process(content)
             block.parse(new_state)
             return new_state.tokens
